@@ -3,7 +3,8 @@
    Geometry is NOT modelled: the IDs of the line (shape.GetExtendedSpatialIdsOnLine, C06), the layer counts of the clearance fit
    (closest_go / geodesy_go inside FitClearanceAroundExtendedSpatialID) and the distance filter enter as oracle answers.
    What IS modelled exactly: the control flow of the function (error paths, the choice of the voxel that is fitted after fix 70c64b2:
-   sort.Strings(idsOnLine); idsOnLine[0]), the N-layer neighbourhood (Neighbour.nN_api, C08), common.Difference / Union / Unique (SetOps,
+   sort.Strings(idsOnLine); idsOnLine[0]; the measuring loop as a fold, with the state of the one reused closest.Measure threaded through,
+   over the candidates sorted as by fix 915e48e), the N-layer neighbourhood (Neighbour.nN_api, C08), common.Difference / Union / Unique (SetOps,
    C20, with their map-order oracles), and the loop skeleton of the fit (first iteration, error checks).
    Part 1: the order of sort.Strings and the picked voxel.     Part 2: skeleton of the fit.
    Part 3: the corridor model over oracles and its theorems.    Part 4: executable instance (balanced-tree sets) = model, as sets.
@@ -303,6 +304,32 @@ Proof.
   - exact I.
 Qed.
 
+
+(* sort.Strings is canonical: two sorted lists with the same elements (as multisets) are equal *)
+Lemma sorted_perm_eq l : forall l',
+  StronglySorted (fun a b => is_true (str_leb a b)) l -> StronglySorted (fun a b => is_true (str_leb a b)) l' ->
+  Permutation l l' -> l = l'.
+Proof.
+  induction l as [|a r IH]; intros l' S S' P.
+  - symmetry. now apply Permutation_nil.
+  - destruct l' as [|b r']; [apply Permutation_sym, Permutation_nil in P; discriminate|].
+    inversion S as [|? ? Sr Fa]; subst. inversion S' as [|? ? Sr' Fb]; subst.
+    rewrite Forall_forall in Fa, Fb.
+    assert (E : a = b).
+    { assert (Ha : In a (b :: r')) by (eapply Permutation_in; [exact P|now left]).
+      assert (Hb : In b (a :: r)) by (eapply Permutation_in; [apply Permutation_sym, P|now left]).
+      destruct Ha as [Ha|Ha]; [congruence|]. destruct Hb as [Hb|Hb]; [congruence|].
+      apply str_leb_antisym; [now apply Fa|now apply Fb]. }
+    subst b. f_equal. apply IH; try assumption. eapply Permutation_cons_inv. exact P.
+Qed.
+Lemma sort_strings_perm_eq l l' : Permutation l l' -> sort_strings l = sort_strings l'.
+Proof.
+  intros P. apply sorted_perm_eq; try apply strsort_strongly.
+  rewrite (sort_strings_perm l), (sort_strings_perm l'). exact P.
+Qed.
+Lemma sort_strings_In s l : In s (sort_strings l) <-> In s l.
+Proof. split; apply Permutation_in; [apply sort_strings_perm|apply Permutation_sym, sort_strings_perm]. Qed.
+
 Section Model.
   (* Go map orders: of the Unique inside GetNspatialIdsAroundVoxcels, of Union, of the final Unique *)
   Variables ord_n ord_u ord_q : list string -> list string.
@@ -311,24 +338,28 @@ Section Model.
   Hypothesis ord_q_perm : forall l, Permutation (ord_q l) l.
   (* oracle: FitClearanceAroundExtendedSpatialID(id, radius) at the radius of this call *)
   Variable fit : string -> result (Z * Z).
-  (* oracle: the body of the measuring loop for one candidate: vertex call (error?) and `dist < radius` *)
-  Variable measure : string -> result bool.
+  (* oracle: the body of the measuring loop for one candidate. ONE closest.Measure (measure1) is reused for all candidates and its search
+     starts from what the previous candidate left behind, so the verdict `dist < radius` is a function of the candidate AND of the state:
+     St = that state, st0 = the state after the segment has been stored in ConvexHulls[0]; Err = the vertex call fails *)
+  Variable St : Type.
+  Variable st0 : St.
+  Variable measure : St -> string -> result (bool * St).
 
-  Definition near (id : string) : bool := match measure id with Ok true => true | _ => false end.
-  (* the measuring loop: returns at the first error, collects the candidates with dist < radius *)
-  Fixpoint measure_all (cand : list string) : result (list string) :=
+  (* the measuring loop over the candidates in the given order: returns at the first error, collects the candidates with dist < radius *)
+  Fixpoint measure_all (st : St) (cand : list string) : result (list string) :=
     match cand with
     | [] => Ok []
     | id :: r =>
-        match measure id with
+        match measure st id with
         | Err => Err
-        | Ok b => match measure_all r with Err => Err | Ok t => Ok (if b then id :: t else t) end
+        | Ok (b, st') => match measure_all st' r with Err => Err | Ok t => Ok (if b then id :: t else t) end
         end
     end.
 
-  (* transform.GetExtendedSpatialIdsWithinRadiusOfLine; line = the answer of shape.GetExtendedSpatialIdsOnLine(start, end, hZoom, vZoom)
-     (an error for nil points and zooms outside 0..35: Line.line_api, C06).  An empty ID list cannot come out of a successful line call
-     (C06_end_voxels_present); Go would panic on idsOnLine[0], the model answers Err and the harness reports any panic. *)
+  (* transform.GetExtendedSpatialIdsWithinRadiusOfLine (after fix 915e48e: sort.Strings(idsAroundLine) before the measuring loop);
+     line = the answer of shape.GetExtendedSpatialIdsOnLine(start, end, hZoom, vZoom) (an error for nil points and zooms outside 0..35:
+     Line.line_api, C06_api_errors).  An empty ID list cannot come out of a successful line call (C06_end_voxels_present); Go would panic
+     on idsOnLine[0], the model answers Err and the harness reports any panic. *)
   Definition corridor (line : result (list string)) (skip : bool) : result (list string) :=
     match line with
     | Err => Err
@@ -344,7 +375,7 @@ Section Model.
                 | Ok a0 =>
                     let cand := SetOps.difference String.eqb (ord_n a0) L in
                     if skip then Ok (SetOps.unique String.eqb ord_q (SetOps.union String.eqb ord_u cand L))
-                    else match measure_all cand with
+                    else match measure_all st0 (sort_strings cand) with
                          | Err => Err
                          | Ok add => Ok (SetOps.unique String.eqb ord_q (SetOps.union String.eqb ord_u add L))
                          end
@@ -353,80 +384,74 @@ Section Model.
         end
     end.
 
-  Lemma measure_all_ok cand : forall add, measure_all cand = Ok add ->
-    (forall s, In s add <-> In s cand /\ near s = true) /\ (forall s, In s cand -> measure s <> Err).
+  Lemma measure_all_incl cand : forall st kept, measure_all st cand = Ok kept -> forall s, In s kept -> In s cand.
   Proof.
-    induction cand as [|a r IH]; cbn [measure_all]; intros add.
-    - intros [= <-]. split; [cbn; tauto|intros s []].
-    - destruct (measure a) as [b|] eqn:M; [|discriminate]. destruct (measure_all r) as [t|]; [|discriminate].
-      intros [= <-]. destruct (IH t eq_refl) as [I1 I2]. split.
-      + intros s. assert (Na : near a = b) by (unfold near; rewrite M; destruct b; reflexivity).
-        destruct b; cbn [In]; rewrite I1; split.
-        * intros [<-|[A B]]; [split; [now left|exact Na]|split; [now right|exact B]].
-        * intros [[<-|A] B]; [now left|right; tauto].
-        * intros [A B]. split; [now right|exact B].
-        * intros [[<-|A] B]; [congruence|tauto].
-      + intros s [<-|Hs]; [congruence|now apply I2].
-  Qed.
-  Lemma measure_all_err cand : measure_all cand = Err <-> exists s, In s cand /\ measure s = Err.
-  Proof.
-    induction cand as [|a r IH]; cbn [measure_all].
-    - split; [discriminate|intros (s & [] & _)].
-    - destruct (measure a) as [b|] eqn:M.
-      + destruct (measure_all r) as [t|].
-        * split; [discriminate|]. intros (s & [<-|Hs] & E); [congruence|]. assert (X : @Err (list string) = Err) by reflexivity.
-          apply IH in X || (destruct IH as [_ IH2]; specialize (IH2 (ex_intro _ s (conj Hs E))); discriminate).
-        * split; [|reflexivity]. intros _. destruct IH as [IH1 _]. destruct (IH1 eq_refl) as (s & Hs & E). exists s. split; [now right|exact E].
-      + split; [|reflexivity]. intros _. exists a. split; [now left|exact M].
+    induction cand as [|a r IH]; cbn [measure_all]; intros st kept.
+    - intros [= <-] s [].
+    - destruct (measure st a) as [[b st']|]; [|discriminate]. destruct (measure_all st' r) as [t|] eqn:R; [|discriminate].
+      intros [= <-] s Hs. destruct b; [destruct Hs as [<-|Hs]; [now left|]|]; right; eapply IH; eassumption.
   Qed.
 
   (* everything the theorems need, in one inversion lemma *)
   Lemma corridor_inv line skip r : corridor line skip = Ok r ->
-    exists L p H V a, line = Ok L /\ pick L = Some p /\ fit p = Ok (H, V) /\ nN_api L H V = Ok a /\ NoDup r /\
-      (forall s, In s r <-> In s L \/ (In s a /\ ~ In s L /\ (skip = true \/ near s = true))) /\
-      (skip = false -> forall s, In s a -> ~ In s L -> measure s <> Err).
+    exists L p H V a kept, line = Ok L /\ pick L = Some p /\ fit p = Ok (H, V) /\ nN_api L H V = Ok a /\ NoDup r /\
+      (skip = false -> measure_all st0 (sort_strings (SetOps.difference String.eqb (ord_n a) L)) = Ok kept) /\
+      (forall s, In s kept -> In s a /\ ~ In s L) /\
+      (forall s, In s r <-> In s L \/ (In s a /\ ~ In s L /\ (skip = true \/ In s kept))).
   Proof.
     unfold corridor. destruct line as [L|]; [|discriminate]. destruct (pick L) as [p|] eqn:Ep; [|discriminate].
     destruct (fit p) as [[H V]|] eqn:Ef; [|discriminate]. destruct (nN_api L H V) as [a|] eqn:Ea; [|discriminate].
-    cbv zeta. intros E. exists L, p, H, V, a. split; [reflexivity|]. split; [exact Ep|]. split; [exact Ef|]. split; [exact Ea|].
+    cbv zeta. intros E.
     assert (IC : forall s, In s (SetOps.difference String.eqb (ord_n a) L) <-> In s a /\ ~ In s L).
     { intros s. rewrite (SetOps.difference_spec String.eqb String.eqb_spec). split; intros [A B]; (split; [|exact B]).
       - eapply Permutation_in; [apply ord_n_perm|exact A].
       - eapply Permutation_in; [apply Permutation_sym, ord_n_perm|exact A]. }
     destruct skip.
-    - injection E as <-. split; [apply (SetOps.unique_NoDup String.eqb String.eqb_spec ord_q ord_q_perm)|]. split; [|discriminate].
+    - exists L, p, H, V, a, []. split; [reflexivity|]. split; [exact Ep|]. split; [exact Ef|]. split; [exact Ea|].
+      injection E as <-. split; [apply (SetOps.unique_NoDup String.eqb String.eqb_spec ord_q ord_q_perm)|]. split; [discriminate|].
+      split; [intros s []|].
       intros s. rewrite (SetOps.unique_spec String.eqb String.eqb_spec ord_q ord_q_perm),
         (SetOps.union_spec String.eqb String.eqb_spec ord_u ord_u_perm), IC. tauto.
-    - destruct (measure_all (SetOps.difference String.eqb (ord_n a) L)) as [add|] eqn:Em; [|discriminate].
-      injection E as <-. destruct (measure_all_ok _ _ Em) as [M1 M2].
-      split; [apply (SetOps.unique_NoDup String.eqb String.eqb_spec ord_q ord_q_perm)|]. split.
-      + intros s. rewrite (SetOps.unique_spec String.eqb String.eqb_spec ord_q ord_q_perm),
-          (SetOps.union_spec String.eqb String.eqb_spec ord_u ord_u_perm), M1, IC. split.
-        * intros [[[A B] C]|A]; [right; repeat split; auto|now left].
-        * intros [A|[A [B [C|C]]]]; [now right|discriminate|left; tauto].
-      + intros _ s A B. apply M2. apply IC. tauto.
+    - destruct (measure_all st0 (sort_strings (SetOps.difference String.eqb (ord_n a) L))) as [add|] eqn:Em; [|discriminate].
+      exists L, p, H, V, a, add. split; [reflexivity|]. split; [exact Ep|]. split; [exact Ef|]. split; [exact Ea|].
+      injection E as <-. split; [apply (SetOps.unique_NoDup String.eqb String.eqb_spec ord_q ord_q_perm)|]. split; [intros _; exact Em|].
+      assert (IK : forall s, In s add -> In s a /\ ~ In s L).
+      { intros s Hs. apply IC. apply sort_strings_In. eapply measure_all_incl; eassumption. }
+      split; [exact IK|].
+      intros s. rewrite (SetOps.unique_spec String.eqb String.eqb_spec ord_q ord_q_perm),
+        (SetOps.union_spec String.eqb String.eqb_spec ord_u ord_u_perm). split.
+      + intros [A|A]; [right; destruct (IK s A); tauto|now left].
+      + intros [A|(_ & _ & [C|C])]; [now right|discriminate|now left].
   Qed.
 
   Theorem corridor_NoDup line skip r : corridor line skip = Ok r -> NoDup r.
-  Proof. intros E. destruct (corridor_inv _ _ _ E) as (L & p & H & V & a & _ & _ & _ & _ & N & _). exact N. Qed.
+  Proof. intros E. destruct (corridor_inv _ _ _ E) as (L & p & H & V & a & k & _ & _ & _ & _ & N & _). exact N. Qed.
 
   Theorem corridor_contains_line L skip r : corridor (Ok L) skip = Ok r -> forall s, In s L -> In s r.
   Proof.
-    intros E s Hs. destruct (corridor_inv _ _ _ E) as (L' & p & H & V & a & [= <-] & _ & _ & _ & _ & M & _). apply M. now left.
+    intros E s Hs. destruct (corridor_inv _ _ _ E) as (L' & p & H & V & a & k & [= <-] & _ & _ & _ & _ & _ & _ & M). apply M. now left.
   Qed.
 
-  (* exact membership, in terms of the modular shift of the line's voxels (C07/C08) *)
+  (* exact membership, in terms of the modular shift of the line's voxels (C07/C08). In measured mode the added IDs are the list `kept`
+     that the measuring loop returns when it is folded, with its state, over the SORTED candidates (box minus line) *)
   Theorem corridor_members l skip r : okids l -> corridor (Ok (map print_eid l)) skip = Ok r ->
-    exists p H V, pick (map print_eid l) = Some p /\ fit p = Ok (H, V) /\ 0 <= H /\ 0 <= V /\
+    exists p H V kept, pick (map print_eid l) = Some p /\ fit p = Ok (H, V) /\ 0 <= H /\ 0 <= V /\
+      (skip = false -> exists cand,
+         (forall s, In s cand <-> (exists i o, In i l /\ In o (stencil H V) /\ s = print_eid (shift_o i o)) /\ ~ In s (map print_eid l)) /\
+         measure_all st0 (sort_strings cand) = Ok kept) /\
       forall s, In s r <->
         In s (map print_eid l) \/
         ((exists i o, In i l /\ In o (stencil H V) /\ s = print_eid (shift_o i o)) /\ ~ In s (map print_eid l) /\
-         (skip = true \/ near s = true)).
+         (skip = true \/ In s kept)).
   Proof.
-    intros Hl E. destruct (corridor_inv _ _ _ E) as (L' & p & H & V & a & [= <-] & Ep & Ef & Ea & _ & M & _).
-    destruct (nN_api_layers _ _ _ _ Ea) as [HH HV]. exists p, H, V. repeat (split; [assumption|]).
-    destruct (nN_exact l H V Hl HH HV) as (a' & Ea' & _ & Ia). rewrite Ea in Ea'. injection Ea' as <-.
-    intros s. rewrite M, Ia. tauto.
+    intros Hl E. destruct (corridor_inv _ _ _ E) as (L' & p & H & V & a & kept & [= <-] & Ep & Ef & Ea & _ & Mk & _ & M).
+    destruct (nN_api_layers _ _ _ _ Ea) as [HH HV]. exists p, H, V, kept. repeat (split; [assumption|]).
+    destruct (nN_exact l H V Hl HH HV) as (a' & Ea' & _ & Ia). rewrite Ea in Ea'. injection Ea' as <-. split.
+    - intros Hs. eexists. split; [|exact (Mk Hs)]. intros s.
+      rewrite (SetOps.difference_spec String.eqb String.eqb_spec), <- Ia. split; intros [A B]; (split; [|exact B]).
+      + eapply Permutation_in; [apply ord_n_perm|exact A].
+      + eapply Permutation_in; [apply Permutation_sym, ord_n_perm|exact A].
+    - intros s. rewrite M, Ia. tauto.
   Qed.
 
   (* every added ID lies in the (H,V) box of some voxel of the line, (H,V) being the layer counts reported for the picked line voxel *)
@@ -435,7 +460,7 @@ Section Model.
       forall s, In s r -> In s (map print_eid l) \/
         exists i dx dy dv, In i l /\ - H <= dx <= H /\ - H <= dy <= H /\ - V <= dv <= V /\ s = print_eid (shift_spec i dx dy dv).
   Proof.
-    intros Hl E. destruct (corridor_members l skip r Hl E) as (p & H & V & Ep & Ef & HH & HV & M).
+    intros Hl E. destruct (corridor_members l skip r Hl E) as (p & H & V & kept & Ep & Ef & HH & HV & _ & M).
     exists p, H, V. split; [exact Ep|]. split; [apply (pick_spec _ _ Ep)|]. split; [exact Ef|].
     intros s Hs. apply M in Hs. destruct Hs as [Hs|[(i & o & Hi & Ho & ->) _]]; [now left|right].
     apply in_stencil in Ho. destruct Ho as [(A & B & C) _]. exists i, (odx o), (ody o), (odv o). repeat split; tauto.
@@ -446,7 +471,7 @@ Section Model.
     corridor (Ok (map print_eid l)) skip = Ok r ->
     forall s, In s r -> exists j, s = print_eid j /\ eh j = h /\ ev j = v.
   Proof.
-    intros Hl Hz E s Hs. destruct (corridor_members l skip r Hl E) as (p & H & V & _ & _ & _ & _ & M).
+    intros Hl Hz E s Hs. destruct (corridor_members l skip r Hl E) as (p & H & V & kept & _ & _ & _ & _ & _ & M).
     apply M in Hs. destruct Hs as [Hs|[(i & o & Hi & Ho & ->) _]].
     - apply in_map_iff in Hs. destruct Hs as (i & <- & Hi). exists i. split; [reflexivity|now apply Hz].
     - exists (shift_o i o). split; [reflexivity|]. unfold shift_o, shift_spec; cbn [eh ev]. now apply Hz.
@@ -456,34 +481,49 @@ Section Model.
   Theorem corridor_zero_layers L p skip r : pick L = Some p -> fit p = Ok (0, 0) -> corridor (Ok L) skip = Ok r ->
     NoDup r /\ forall s, In s r <-> In s L.
   Proof.
-    intros Ep Ef E. destruct (corridor_inv _ _ _ E) as (L' & p' & H & V & a & [= <-] & Ep' & Ef' & Ea & N & M & _).
+    intros Ep Ef E. destruct (corridor_inv _ _ _ E) as (L' & p' & H & V & a & k & [= <-] & Ep' & Ef' & Ea & N & _ & _ & M).
     rewrite Ep in Ep'. injection Ep' as <-. rewrite Ef in Ef'. injection Ef' as <- <-.
     apply nN_api_zero in Ea. subst a. split; [exact N|]. intros s. rewrite M. cbn [In]. tauto.
   Qed.
 
-  (* measured mode returns a subset of skip mode (and skip mode succeeds whenever measured mode does) *)
+  (* measured mode returns a subset of skip mode (and skip mode succeeds whenever measured mode does); holds whatever the filter's state *)
   Theorem measured_subset_skipped line r : corridor line false = Ok r ->
     exists r', corridor line true = Ok r' /\ forall s, In s r -> In s r'.
   Proof.
-    intros E. destruct (corridor_inv _ _ _ E) as (L & p & H & V & a & -> & Ep & Ef & Ea & _ & M & _).
+    intros E. destruct (corridor_inv _ _ _ E) as (L & p & H & V & a & k & -> & Ep & Ef & Ea & _ & _ & _ & M).
     destruct (corridor (Ok L) true) as [r'|] eqn:E'.
     - exists r'. split; [reflexivity|]. intros s Hs.
-      destruct (corridor_inv _ _ _ E') as (L' & p' & H' & V' & a' & [= <-] & Ep' & Ef' & Ea' & _ & M' & _).
+      destruct (corridor_inv _ _ _ E') as (L' & p' & H' & V' & a' & k' & [= <-] & Ep' & Ef' & Ea' & _ & _ & _ & M').
       rewrite Ep in Ep'. injection Ep' as <-. rewrite Ef in Ef'. injection Ef' as <- <-. rewrite Ea in Ea'. injection Ea' as <-.
       apply M'. apply M in Hs. destruct Hs as [Hs|(A & B & _)]; [now left|right; tauto].
     - exfalso. unfold corridor in E'. rewrite Ep, Ef, Ea in E'. discriminate.
   Qed.
 
-  (* error paths *)
+  (* error paths (unfoldings of the definition; "nil point / invalid zoom => the line call fails" is C06_api_errors) *)
   Theorem corridor_line_error skip : corridor Err skip = Err.
   Proof. reflexivity. Qed.
   Theorem corridor_fit_error L p skip : pick L = Some p -> fit p = Err -> corridor (Ok L) skip = Err.
   Proof. intros Ep Ef. unfold corridor. now rewrite Ep, Ef. Qed.
-  Theorem corridor_negative_layers L p H V skip : pick L = Some p -> fit p = Ok (H, V) -> H < 0 \/ V < 0 -> corridor (Ok L) skip = Err.
-  Proof. intros Ep Ef Hn. unfold corridor. rewrite Ep, Ef, (nN_negative L H V Hn). reflexivity. Qed.
+
+  (* success: a non-empty line of well-formed IDs, non-negative layer counts and a measuring loop that never fails give a result *)
+  Lemma measure_all_total_ok cand : (forall st id, measure st id <> Err) -> forall st, exists kept, measure_all st cand = Ok kept.
+  Proof.
+    intros T. induction cand as [|a r IH]; intros st; cbn [measure_all]; [eauto|].
+    destruct (measure st a) as [[b st']|] eqn:M; [|exfalso; eapply T; eassumption].
+    destruct (IH st') as (t & ->). eauto.
+  Qed.
+  Theorem corridor_succeeds l p H V skip : okids l -> pick (map print_eid l) = Some p -> fit p = Ok (H, V) -> 0 <= H -> 0 <= V ->
+    (forall st id, measure st id <> Err) -> exists r, corridor (Ok (map print_eid l)) skip = Ok r.
+  Proof.
+    intros Hl Ep Ef HH HV T. unfold corridor. rewrite Ep, Ef. destruct (nN_exact l H V Hl HH HV) as (a & -> & _). cbv zeta.
+    destruct skip; [eauto|].
+    destruct (measure_all_total_ok (sort_strings (SetOps.difference String.eqb (ord_n a) (map print_eid l))) T st0) as (k & ->). eauto.
+  Qed.
 End Model.
 
-(* ---- the result does not depend on any of the map orders nor on the order in which the line's IDs arrive (C16; D15 after fix 70c64b2) ---- *)
+(* ---- the result does not depend on any of the map orders nor on the order in which the line's IDs arrive (C16; D15 after fixes 70c64b2
+   and 915e48e). Skip mode: no condition. Measured mode: BECAUSE the candidates are sorted before the stateful measuring loop runs — the
+   loop then sees the same list, whatever the map orders were; `measure` may depend on its state in any way. ---- *)
 Section Blind.
   Variables ord_n ord_u ord_q ord_n' ord_u' ord_q' : list string -> list string.
   Hypothesis Pn : forall l, Permutation (ord_n l) l.
@@ -493,47 +533,63 @@ Section Blind.
   Hypothesis Pu' : forall l, Permutation (ord_u' l) l.
   Hypothesis Pq' : forall l, Permutation (ord_q' l) l.
   Variable fit : string -> result (Z * Z).
-  Variable measure : string -> result bool.
+  Variable St : Type.
+  Variable st0 : St.
+  Variable measure : St -> string -> result (bool * St).
 
   Lemma corridor_transport L L' skip r : Permutation L L' ->
-    corridor ord_n ord_u ord_q fit measure (Ok L) skip = Ok r ->
-    exists r', corridor ord_n' ord_u' ord_q' fit measure (Ok L') skip = Ok r' /\ forall s, In s r <-> In s r'.
+    corridor ord_n ord_u ord_q fit St st0 measure (Ok L) skip = Ok r ->
+    exists r', corridor ord_n' ord_u' ord_q' fit St st0 measure (Ok L') skip = Ok r' /\ forall s, In s r <-> In s r'.
   Proof.
-    intros P E. destruct (corridor_inv _ _ _ Pn Pu Pq _ _ _ _ _ E) as (L0 & p & H & V & a & [= <-] & Ep & Ef & Ea & _ & M & Merr).
-    pose proof (nN_api_perm L L' H V P) as NP. rewrite Ea in NP. destruct (nN_api L' H V) as [a'|] eqn:Ea'; [|contradiction].
-    assert (Ep' : pick L' = Some p) by (rewrite <- (pick_perm L L' P); exact Ep).
+    intros P E. unfold corridor in E |- *. rewrite <- (pick_perm L L' P). destruct (pick L) as [p|]; [|discriminate].
+    destruct (fit p) as [[H V]|]; [|discriminate]. pose proof (nN_api_perm L L' H V P) as NP.
+    destruct (nN_api L H V) as [a|] eqn:Ea; [|discriminate]. destruct (nN_api L' H V) as [a'|] eqn:Ea'; [|contradiction].
+    cbv zeta in E |- *.
     assert (IL : forall s, In s L <-> In s L').
     { intros s. split; apply Permutation_in; [exact P|apply Permutation_sym, P]. }
-    destruct (corridor ord_n' ord_u' ord_q' fit measure (Ok L') skip) as [r'|] eqn:E'.
-    - exists r'. split; [reflexivity|].
-      destruct (corridor_inv _ _ _ Pn' Pu' Pq' _ _ _ _ _ E') as (L1 & p1 & H1 & V1 & a1 & [= <-] & Ep1 & Ef1 & Ea1 & _ & M' & _).
-      rewrite Ep' in Ep1. injection Ep1 as <-. rewrite Ef in Ef1. injection Ef1 as <- <-. rewrite Ea' in Ea1. injection Ea1 as <-.
-      intros s. rewrite M, M', NP, IL. tauto.
-    - exfalso. unfold corridor in E'. rewrite Ep', Ef, Ea' in E'. cbv zeta in E'. destruct skip; [discriminate|].
-      destruct (measure_all measure (SetOps.difference String.eqb (ord_n' a') L')) eqn:Em; [discriminate|].
-      apply measure_all_err in Em. destruct Em as (s & Hs & Es).
-      apply (SetOps.difference_spec String.eqb String.eqb_spec) in Hs. destruct Hs as [A B].
-      apply (Permutation_in _ (Pn' a')) in A. apply (Merr eq_refl s); [now apply NP|now rewrite IL|exact Es].
+    assert (IC : forall s, In s (SetOps.difference String.eqb (ord_n a) L) <-> In s a /\ ~ In s L).
+    { intros s. rewrite (SetOps.difference_spec String.eqb String.eqb_spec). split; intros [A B]; (split; [|exact B]).
+      - eapply Permutation_in; [apply Pn|exact A].
+      - eapply Permutation_in; [apply Permutation_sym, Pn|exact A]. }
+    assert (IC' : forall s, In s (SetOps.difference String.eqb (ord_n' a') L') <-> In s a' /\ ~ In s L').
+    { intros s. rewrite (SetOps.difference_spec String.eqb String.eqb_spec). split; intros [A B]; (split; [|exact B]).
+      - eapply Permutation_in; [apply Pn'|exact A].
+      - eapply Permutation_in; [apply Permutation_sym, Pn'|exact A]. }
+    destruct skip.
+    - injection E as <-. eexists. split; [reflexivity|]. intros s.
+      rewrite !(SetOps.unique_spec String.eqb String.eqb_spec _ Pq), !(SetOps.unique_spec String.eqb String.eqb_spec _ Pq'),
+        (SetOps.union_spec String.eqb String.eqb_spec _ Pu), (SetOps.union_spec String.eqb String.eqb_spec _ Pu'), IC, IC', NP, IL. tauto.
+    - assert (PC : Permutation (SetOps.difference String.eqb (ord_n a) L) (SetOps.difference String.eqb (ord_n' a') L')).
+      { destruct (nN_api_members _ _ _ _ Ea) as [Na _], (nN_api_members _ _ _ _ Ea') as [Na' _].
+        apply NoDup_Permutation.
+        - apply SetOps.difference_NoDup. eapply Permutation_NoDup; [apply Permutation_sym, Pn|exact Na].
+        - apply SetOps.difference_NoDup. eapply Permutation_NoDup; [apply Permutation_sym, Pn'|exact Na'].
+        - intros s. rewrite IC, IC', NP, IL. tauto. }
+      rewrite <- (sort_strings_perm_eq _ _ PC).
+      destruct (measure_all St measure st0 (sort_strings (SetOps.difference String.eqb (ord_n a) L))) as [kept|]; [|discriminate].
+      injection E as <-. eexists. split; [reflexivity|]. intros s.
+      rewrite !(SetOps.unique_spec String.eqb String.eqb_spec _ Pq), !(SetOps.unique_spec String.eqb String.eqb_spec _ Pq'),
+        (SetOps.union_spec String.eqb String.eqb_spec _ Pu), (SetOps.union_spec String.eqb String.eqb_spec _ Pu'), IL. tauto.
   Qed.
 End Blind.
 
-Theorem corridor_order_blind ord_n ord_u ord_q ord_n' ord_u' ord_q' fit measure L L' skip :
+Theorem corridor_order_blind ord_n ord_u ord_q ord_n' ord_u' ord_q' fit St st0 measure L L' skip :
   (forall l, Permutation (ord_n l) l) -> (forall l, Permutation (ord_u l) l) -> (forall l, Permutation (ord_q l) l) ->
   (forall l, Permutation (ord_n' l) l) -> (forall l, Permutation (ord_u' l) l) -> (forall l, Permutation (ord_q' l) l) ->
   Permutation L L' ->
-  match corridor ord_n ord_u ord_q fit measure (Ok L) skip, corridor ord_n' ord_u' ord_q' fit measure (Ok L') skip with
+  match corridor ord_n ord_u ord_q fit St st0 measure (Ok L) skip, corridor ord_n' ord_u' ord_q' fit St st0 measure (Ok L') skip with
   | Ok r, Ok r' => Permutation r r'
   | Err, Err => True
   | _, _ => False
   end.
 Proof.
   intros Pn Pu Pq Pn' Pu' Pq' P.
-  destruct (corridor ord_n ord_u ord_q fit measure (Ok L) skip) as [r|] eqn:E.
-  - destruct (corridor_transport ord_n ord_u ord_q ord_n' ord_u' ord_q' Pn Pu Pq Pn' Pu' Pq' fit measure L L' skip r P E) as (r' & E' & I).
-    rewrite E'. apply NoDup_Permutation; [|exact (corridor_NoDup ord_n' ord_u' ord_q' Pn' Pu' Pq' fit measure _ _ _ E')|exact I].
-    exact (corridor_NoDup ord_n ord_u ord_q Pn Pu Pq fit measure _ _ _ E).
-  - destruct (corridor ord_n' ord_u' ord_q' fit measure (Ok L') skip) as [r'|] eqn:E'; [|exact I].
-    destruct (corridor_transport ord_n' ord_u' ord_q' ord_n ord_u ord_q Pn' Pu' Pq' Pn Pu Pq fit measure L' L skip r' (Permutation_sym P) E')
+  destruct (corridor ord_n ord_u ord_q fit St st0 measure (Ok L) skip) as [r|] eqn:E.
+  - destruct (corridor_transport ord_n ord_u ord_q ord_n' ord_u' ord_q' Pn Pu Pq Pn' Pu' Pq' fit St st0 measure L L' skip r P E) as (r' & E' & I).
+    rewrite E'. apply NoDup_Permutation; [|exact (corridor_NoDup ord_n' ord_u' ord_q' Pn' Pu' Pq' fit St st0 measure _ _ _ E')|exact I].
+    exact (corridor_NoDup ord_n ord_u ord_q Pn Pu Pq fit St st0 measure _ _ _ E).
+  - destruct (corridor ord_n' ord_u' ord_q' fit St st0 measure (Ok L') skip) as [r'|] eqn:E'; [|exact I].
+    destruct (corridor_transport ord_n' ord_u' ord_q' ord_n ord_u ord_q Pn' Pu' Pq' Pn Pu Pq fit St st0 measure L' L skip r' (Permutation_sym P) E')
       as (r & E2 & _). congruence.
 Qed.
 
@@ -541,30 +597,31 @@ Qed.
 Definition fit_of_model (fuel : nat) (dx dy : string -> Z -> float) (c : float) (id : string) : result (Z * Z) :=
   match fit_model fuel dx dy id c with Some r => r | None => Err end.
 
-Theorem corridor_negative_radius ord_n ord_u ord_q fuel dx dy c measure line skip :
-  (c <? 0)%float = true -> corridor ord_n ord_u ord_q (fit_of_model fuel dx dy c) measure line skip = Err.
+Theorem corridor_negative_radius ord_n ord_u ord_q fuel dx dy c St st0 measure line skip :
+  (c <? 0)%float = true -> corridor ord_n ord_u ord_q (fit_of_model fuel dx dy c) St st0 measure line skip = Err.
 Proof.
   intros Hc. unfold corridor. destruct line as [L|]; [|reflexivity]. destruct (pick L); [|reflexivity].
   unfold fit_of_model. now rewrite (fit_negative fuel dx dy _ c Hc).
 Qed.
 
-Theorem corridor_radius_zero ord_n ord_u ord_q fuel dx dy measure l skip r :
+Theorem corridor_radius_zero ord_n ord_u ord_q fuel dx dy St st0 measure l skip r :
   (forall l, Permutation (ord_n l) l) -> (forall l, Permutation (ord_u l) l) -> (forall l, Permutation (ord_q l) l) ->
   valids l ->
   (forall id, (dx id 1%Z <? 0)%float = false) -> (forall id, (dy id 1%Z <? 0)%float = false) ->   (* measured distances are not negative *)
-  corridor ord_n ord_u ord_q (fit_of_model (S fuel) dx dy 0%float) measure (Ok (map print_eid l)) skip = Ok r ->
+  corridor ord_n ord_u ord_q (fit_of_model (S fuel) dx dy 0%float) St st0 measure (Ok (map print_eid l)) skip = Ok r ->
   NoDup r /\ forall s, In s r <-> In s (map print_eid l).
 Proof.
   intros Pn Pu Pq Hl Dx Dy E.
-  destruct (corridor_inv _ _ _ Pn Pu Pq _ _ _ _ _ E) as (L & p & H & V & a & [= <-] & Ep & _).
+  destruct (corridor_inv _ _ _ Pn Pu Pq _ _ _ _ _ _ _ E) as (L & p & H & V & a & k & [= <-] & Ep & _).
   destruct (pick_spec _ _ Ep) as [Ip _]. apply in_map_iff in Ip. destruct Ip as (i & <- & Hi).
-  apply (corridor_zero_layers ord_n ord_u ord_q Pn Pu Pq (fit_of_model (S fuel) dx dy 0%float) measure (map print_eid l) (print_eid i) skip r Ep);
+  apply (corridor_zero_layers ord_n ord_u ord_q Pn Pu Pq (fit_of_model (S fuel) dx dy 0%float) St st0 measure (map print_eid l) (print_eid i) skip r Ep);
     [|exact E].
   unfold fit_of_model. rewrite fit_zero_clearance_valid; [reflexivity|now apply Hl|apply Dx|apply Dy].
 Qed.
 
 (* ================= Part 4: executable instance ================= *)
-(* the same composition on balanced-tree sets (a Go map is a set of keys); map orders := first occurrence *)
+(* the same composition on balanced-tree sets (a Go map is a set of keys); map orders := first occurrence; the filter is a function of
+   the candidate alone (at run time: membership in the observed result), i.e. the stateful loop with a trivial state *)
 Definition corridor_exec (fit : string -> result (Z * Z)) (nearb : string -> bool) (line : result (list string)) (skip : bool)
   : result (list string) :=
   match line with
@@ -591,12 +648,15 @@ Lemma mem_set_of x L : SS.mem x (set_of L) = true <-> In x L.
 Proof. rewrite SS.mem_spec. apply set_of_In. Qed.
 Lemma not_mem_set_of x L : negb (SS.mem x (set_of L)) = true <-> ~ In x L.
 Proof. rewrite negb_true_iff, <- mem_set_of. destruct (SS.mem x (set_of L)); split; congruence. Qed.
-Lemma measure_all_total (f : string -> bool) cand : measure_all (fun id => Ok (f id)) cand = Ok (filter f cand).
-Proof. induction cand as [|a r IH]; cbn [measure_all filter]; [reflexivity|]. rewrite IH. destruct (f a); reflexivity. Qed.
+Definition stateless (f : string -> bool) : unit -> string -> result (bool * unit) := fun _ id => Ok (f id, tt).
+Lemma measure_all_total (f : string -> bool) cand : measure_all unit (stateless f) tt cand = Ok (filter f cand).
+Proof.
+  induction cand as [|a r IH]; [reflexivity|]. cbn [measure_all filter]. unfold stateless at 1. rewrite IH. destruct (f a); reflexivity.
+Qed.
 
 Theorem corridor_exec_equiv ord_n ord_u ord_q fit nearb line skip :
   (forall l, Permutation (ord_n l) l) -> (forall l, Permutation (ord_u l) l) -> (forall l, Permutation (ord_q l) l) ->
-  match corridor_exec fit nearb line skip, corridor ord_n ord_u ord_q fit (fun id => Ok (nearb id)) line skip with
+  match corridor_exec fit nearb line skip, corridor ord_n ord_u ord_q fit unit tt (stateless nearb) line skip with
   | Ok r, Ok r' => Permutation r r'
   | Err, Err => True
   | _, _ => False
@@ -615,7 +675,8 @@ Proof.
   - rewrite measure_all_total.
     apply NoDup_Permutation; [apply Neighbour.unique_NoDup|apply (SetOps.unique_NoDup String.eqb String.eqb_spec ord_q Pq)|].
     intros s. rewrite Neighbour.unique_In, in_app_iff, !filter_In, not_mem_set_of,
-      (SetOps.unique_spec String.eqb String.eqb_spec ord_q Pq), (SetOps.union_spec String.eqb String.eqb_spec ord_u Pu), filter_In, IC. tauto.
+      (SetOps.unique_spec String.eqb String.eqb_spec ord_q Pq), (SetOps.union_spec String.eqb String.eqb_spec ord_u Pu), filter_In,
+      sort_strings_In, IC. tauto.
 Qed.
 
 (* ================= Part 5: the checker applied to the implementation's observed output ================= *)
@@ -667,18 +728,18 @@ Proof.
   intros H. unfold nodup_chk. rewrite Neighbour.unique_id by exact H.
   destruct (list_eqb_spec String.eqb String.eqb_spec o o); congruence.
 Qed.
-Theorem check_corridor_accepts_model ord_n ord_u ord_q fit measure l h v skip r p H V :
+Theorem check_corridor_accepts_model ord_n ord_u ord_q fit St st0 measure l h v skip r p H V :
   (forall l, Permutation (ord_n l) l) -> (forall l, Permutation (ord_u l) l) -> (forall l, Permutation (ord_q l) l) ->
   valids l -> (forall i, In i l -> eh i = h /\ ev i = v) -> V <= 2 ^ 62 ->
   pick (map print_eid l) = Some p -> fit p = Ok (H, V) ->
-  corridor ord_n ord_u ord_q fit measure (Ok (map print_eid l)) skip = Ok r ->
+  corridor ord_n ord_u ord_q fit St st0 measure (Ok (map print_eid l)) skip = Ok r ->
   check_corridor h v ((H =? 0) && (V =? 0)) (map print_eid l) H V r = true.
 Proof.
   intros Pn Pu Pq Hl Hz HV62 Ep Ef E. pose proof (valids_okids l Hl) as Hok.
-  destruct (corridor_members ord_n ord_u ord_q Pn Pu Pq fit measure l skip r Hok E) as (p' & H' & V' & Ep' & Ef' & HH & HV & M).
+  destruct (corridor_members ord_n ord_u ord_q Pn Pu Pq fit St st0 measure l skip r Hok E) as (p' & H' & V' & kept & Ep' & Ef' & HH & HV & _ & M).
   rewrite Ep in Ep'. injection Ep' as <-. rewrite Ef in Ef'. injection Ef' as <- <-.
   unfold check_corridor. rewrite !andb_true_iff. repeat split.
-  - apply nodup_chk_complete. exact (corridor_NoDup ord_n ord_u ord_q Pn Pu Pq fit measure _ _ _ E).
+  - apply nodup_chk_complete. exact (corridor_NoDup ord_n ord_u ord_q Pn Pu Pq fit St st0 measure _ _ _ E).
   - apply forallb_forall. intros s Hs. apply M in Hs. destruct Hs as [Hs|[(i & o & Hi & Ho & ->) _]].
     + apply in_map_iff in Hs. destruct Hs as (i & <- & Hi). apply at_zooms_print; [now apply Hok|now apply Hz|now apply Hz].
     + apply at_zooms_print.
